@@ -6,6 +6,7 @@ package main
 // a checker error (exit 2), never a silent pass.
 
 import (
+	"encoding/json"
 	"fmt"
 	"os"
 	"os/exec"
@@ -31,6 +32,18 @@ func selfValidate(p *Property, repo, verif string) []map[string]interface{} {
 					patches = append(patches, pf)
 				}
 			}
+		}
+	}
+	// changes that are known NOT to be reported (they break the property through a clause the rules do not decide);
+	// each is listed with its reason in seeded/UNDETECTED.json and in DESIGN.md
+	undetected := map[string]string{}
+	if b, err := os.ReadFile(filepath.Join(verif, "seeded", "UNDETECTED.json")); err == nil {
+		var lst []struct{ Name, Reason string }
+		if err := json.Unmarshal(b, &lst); err != nil {
+			fatalf("self-validation: seeded/UNDETECTED.json: %v", err)
+		}
+		for _, e := range lst {
+			undetected[e.Name] = e.Reason
 		}
 	}
 	known := loadKnown(verif)
@@ -72,8 +85,18 @@ func selfValidate(p *Property, repo, verif string) []map[string]interface{} {
 					fresh = append(fresh, o.Key)
 				}
 			}
+			seedName := filepath.Base(filepath.Dir(patch))
 			if len(fresh) == 0 {
+				if why, listed := undetected[seedName]; listed {
+					report = append(report, map[string]interface{}{"mutant": name, "status": "not reported (listed in seeded/UNDETECTED.json)", "reason": why})
+					fmt.Printf("  self-validation: mutant %-60s NOT reported — listed as outside the decided clauses\n", name)
+					applied--
+					return
+				}
 				fatalf("self-validation: mutant %s applies but is NOT reported by the rules of %s (checker error)", name, p.ID)
+			}
+			if _, listed := undetected[seedName]; listed {
+				fatalf("self-validation: mutant %s is listed in seeded/UNDETECTED.json but IS reported now: remove it from the list", name)
 			}
 			if len(fresh) > 4 {
 				fresh = fresh[:4]
